@@ -4,6 +4,7 @@ import EupsModel.Model.CondPinned
 import EupsModel.Lemmas.TableBlocks
 import EupsModel.Lemmas.TableText
 import EupsModel.Lemmas.TableLegacy
+import EupsModel.Lemmas.TableArgs
 /-! C11 — table files mean what they say.  Property theorems only: the specification side is in
 `Spec/C11.lean`, the models in `Model/{Cond,CondPinned,TableParse}.lean`, the lemmas in `Lemmas/Cond*.lean`. -/
 namespace EupsModel.C11
@@ -268,6 +269,73 @@ example : legacyAsIfText legacyPre legacyGroups true = Str.ofString
 
 /-! ## arguments -/
 
+/-- **C11_args.**  An argument list as written — unquoted arguments (no blank, comma, quote) and quoted ones
+(anything inside: blanks, commas, `\"` for a double quote, nothing at all), separated by any mix of blanks and
+commas, padded with blanks or not — is tokenised into exactly the arguments written, in order; except when the
+whole list is one quoted string without a quote inside (the classic spelling of a word list, `C11_args_whole_list`).
+Outside the theorem: arguments containing a backslash or one of the characters `\x01`–`\x03`, which the
+tokeniser uses for protection. -/
+theorem C11_args (pad1 pad2 : Str) (first : WArg) (rest : List (Str × WArg)) (h1 : padOK pad1 = true)
+    (h2 : padOK pad2 = true) (hf : first.ok = true) (hr : ∀ p ∈ rest, sepOK p.1 = true ∧ p.2.ok = true)
+    (hw : wholeQuoted pad1 first rest pad2 = false) :
+    parseArgs repaired (argsText pad1 first rest pad2) = first.val :: rest.map (·.2.val) :=
+  parseArgs_written h1 h2 hf hr hw
+
+/-- the classic spelling `setupRequired("foo -j 1.2")`: one pair of quotes around the list denotes its words -/
+theorem C11_args_whole_list (v : Str) (hq : quotedVal v = true) (h34 : v.contains 34 = false) :
+    parseArgs repaired (argsText [] ⟨v, true⟩ [] []) = splitArgs [] v := by
+  have h34' : 34 ∉ v := fun m => by rw [List.contains_iff_mem.mpr m] at h34; cases h34
+  have hv : ∀ c ∈ v, c ≠ 92 ∧ c ≠ 1 ∧ c ≠ 2 ∧ c ≠ 3 := by
+    intro c m
+    have := List.all_eq_true.mp hq c m
+    simpa [Bool.and_eq_true, and_assoc] using this
+  have : argsText [] ⟨v, true⟩ [] [] = 34 :: v ++ [34] := by simp [argsText, WArg.text, escQ_noquote h34']
+  rw [this]
+  exact parseArgs_whole h34' hv
+
+/-- a command as written — name in any letter case, blanks before `(`, an optional `;` and blanks after `)` — is
+the command its lower-cased name stands for, applied to the tokenised argument text -/
+theorem C11_command_line (pdir : Option Str) (name gap argText tl : Str) (cmd : Cmd) (hne : name ≠ [])
+    (hn : name.all isWordCh = true) (hg : blank gap = true) (ht : cmdTail tl = true) (h41 : 41 ∉ tl)
+    (hc : cmdTable.lookup (Str.lower name) = some cmd) :
+    commandLine repaired pdir (name ++ gap ++ [40] ++ argText ++ [41] ++ tl) =
+      normalise pdir cmd (parseArgs repaired argText) := by
+  unfold commandLine
+  rw [cmdLine_written hne hn hg ht h41]
+  simp only [hc]
+
+/-- append / prepend and required / optional are told apart, and `envSet` joins its value -/
+theorem C11_command_kinds (pdir : Option Str) (args : List Str) :
+    normalise pdir .setupRequired args = .act ⟨Cmd.setupRequired.name, dropF args, .optional false⟩ ∧
+    normalise pdir .setupOptional args = .act ⟨Cmd.setupRequired.name, dropF args, .optional true⟩ ∧
+    normalise pdir .unsetupRequired args = .act ⟨Cmd.unsetupRequired.name, dropF args, .optional false⟩ ∧
+    normalise pdir .unsetupOptional args = .act ⟨Cmd.unsetupRequired.name, dropF args, .optional true⟩ ∧
+    ((args.length = 2 ∨ args.length = 3) →
+      normalise pdir .envPrepend args = .act ⟨Cmd.envPrepend.name, dropF args, .append false⟩ ∧
+      normalise pdir .envAppend args = .act ⟨Cmd.envPrepend.name, dropF args, .append true⟩) ∧
+    (∀ a b rest, args = a :: b :: rest →
+      normalise pdir .envSet args = .act ⟨Cmd.envSet.name, dropF [a, joinSp (b :: rest)], .none⟩) := by
+  refine ⟨rfl, rfl, rfl, rfl, ?_, ?_⟩
+  · intro h
+    rcases h with h | h <;> simp [normalise, h]
+  · intro a b rest h; subst h; rfl
+
+/-! ### non-vacuity -/
+
+/-- ` PATH , "a b, c" ,"say \"hi\"" "" x ` -/
+example : argsText [32] ⟨Str.ofString "PATH", false⟩
+      [(Str.ofString " , ", ⟨Str.ofString "a b, c", true⟩), (Str.ofString " ,", ⟨Str.ofString "say \"hi\"", true⟩),
+       ([32], ⟨[], true⟩), ([32], ⟨Str.ofString "x", false⟩)] [32]
+    = Str.ofString " PATH , \"a b, c\" ,\"say \\\"hi\\\"\" \"\" x " := by decide +kernel
+example : (⟨Str.ofString "a b, c", true⟩ : WArg).ok = true ∧ (⟨[], true⟩ : WArg).ok = true ∧
+    (⟨Str.ofString "PATH", false⟩ : WArg).ok = true ∧ sepOK (Str.ofString " , ") = true := by decide +kernel
+example : parseArgs repaired (Str.ofString " PATH , \"a b, c\" ,\"say \\\"hi\\\"\" \"\" x ")
+    = [Str.ofString "PATH", Str.ofString "a b, c", Str.ofString "say \"hi\"", [], Str.ofString "x"] := by decide +kernel
+example : commandLine repaired none (Str.ofString "ENVAPPEND (PATH, \"a b\") ; ")
+    = .act ⟨Str.ofString "envPrepend", [Str.ofString "PATH", Str.ofString "a b"], .append true⟩ := by decide +kernel
+
+/-! ### the argument tokeniser as pinned (before the repairs of D20, D32, D33) -/
+
 /-- **D20 as pinned.**  `print("1.2", "-j a")`: the pinned tokeniser strips the first and the last quote of the
 argument text as if they were one pair; the repaired one keeps the two arguments written. -/
 theorem C11_args_quote_pair_witness :
@@ -275,6 +343,21 @@ theorem C11_args_quote_pair_witness :
       [Str.ofString "1.2\", \"-j", Str.ofString "a"] ∧
     parseArgs repaired (Str.ofString "\"1.2\", \"-j a\"") = [Str.ofString "1.2", Str.ofString "-j a"] ∧
     parseArgs repaired (Str.ofString "\"foo -j 1.2\"") = [Str.ofString "foo", Str.ofString "-j", Str.ofString "1.2"] := by
+  decide +kernel
+
+/-- **D32 as pinned.**  The special case `,\s*"(\s)"` fires on the comma *inside* the first argument of
+`print("a, " "b")` (it takes the closing quote, the blank and the next opening quote for `" "`). -/
+theorem C11_args_comma_blank_witness :
+    parseArgs { repaired with d32 := false } (Str.ofString "\"a, \" \"b\"") = [Str.ofString "a \" \"b"] ∧
+    parseArgs repaired (Str.ofString "\"a, \" \"b\"") = [Str.ofString "a, ", Str.ofString "b"] := by
+  decide +kernel
+
+/-- **D33 as pinned.**  `"[^"]+"` cannot match the empty argument of `print("", "a b")`; its closing quote pairs
+with the next opening quote and the separator is protected instead of the blank inside `"a b"`. -/
+theorem C11_args_empty_quoted_witness :
+    parseArgs { repaired with d33 := false } (Str.ofString "\"\", \"a b\"")
+      = [Str.ofString "\"\", \"a", Str.ofString "b\""] ∧
+    parseArgs repaired (Str.ofString "\"\", \"a b\"") = [[], Str.ofString "a b"] := by
   decide +kernel
 
 end EupsModel.C11
